@@ -110,6 +110,26 @@ def is_channel(mm):
         return True
 
 
+def is_channel_with_config(mm):
+    """Like :func:`is_channel`, but also identify the configuration
+
+    Not all configuration keys that have an influence on the Young's
+    modulus are required in all three cases (A, B, C). Return a string
+    (instead of `True`) identifying these keys, such that the cached
+    feature data are discarded when one of them changes.
+    """
+    if is_channel(mm):
+        calccfg = mm.config["calculation"]
+        return "channel; " + "; ".join(
+            [f"{key}={calccfg.get(key)}" for key in [
+                "emodulus medium",
+                "emodulus temperature",
+                "emodulus viscosity",
+                "emodulus viscosity model"]])
+    else:
+        return False
+
+
 def register():
     # Please note that registering these things is a delicate business,
     # because the priority has to be chosen carefully.
@@ -131,7 +151,7 @@ def register():
                                      ["imaging", ["pixel size"]],
                                      ["setup", ["flow rate", "channel width"]]
                                      ],
-                         req_func=is_channel,
+                         req_func=is_channel_with_config,
                          priority=4 + pr)
         AncillaryFeature(feature_name="emodulus",
                          data="case A",
@@ -143,7 +163,7 @@ def register():
                                      ["imaging", ["pixel size"]],
                                      ["setup", ["flow rate", "channel width"]]
                                      ],
-                         req_func=is_channel,
+                         req_func=is_channel_with_config,
                          priority=0 + pr)
 
     AncillaryFeature(feature_name="emodulus",
@@ -156,5 +176,5 @@ def register():
                                  ["imaging", ["pixel size"]],
                                  ["setup", ["flow rate", "channel width"]]
                                  ],
-                     req_func=is_channel,
+                     req_func=is_channel_with_config,
                      priority=2)
